@@ -246,6 +246,12 @@ def alias_programs(ctx):
         spec.set_custom_mode(f, f["parts"][1], "empty")
         spec.set_custom_mode(a, a["parts"][1], "empty")
         spec.set_custom_mode(a, a["parts"][2], ["assoc", "fixed"][i % 2])
+        if i % 2 == 0:
+            # (and the interface with associated custom types takes `msgs: Vec<CosmosMsg<Self::ExecC>>`, as cw1 does)
+            pt = a["parts"][2]
+            if not any(h["kind"] == "exec" for h in pt["handlers"]):
+                pt["handlers"].append(spec._new_handler(rng, a, pt, "exec", "relay_msgs", True))
+            spec.add_cosmos_msgs_arg(a, pt)
         progs += [a, b, c, d, e, f]
     for k, p in enumerate(progs):
         p["_render_kw"] = {"sv": ALIAS}
